@@ -4,8 +4,10 @@
 package main
 
 import (
+	"context"
 	"errors"
 	"fmt"
+	"io"
 	"strings"
 	"time"
 
@@ -267,6 +269,10 @@ func (al alphabet) level(d int) []*node {
 
 var errStop = errors.New("stop")
 
+// stopErrs: the errors a callback may return are arbitrary values, including ones that other code treats as "not
+// really an error"; ForEach hands back the very value it was given. The position decides which one is used.
+var stopErrs = []error{errStop, io.EOF, fmt.Errorf("reading: %w", io.EOF), context.Canceled, io.ErrUnexpectedEOF, errors.New("")}
+
 type checker struct {
 	r *drv.Result
 }
@@ -323,14 +329,14 @@ func (c *checker) evalTree(n *node, everyErrorPosition bool) {
 		err := seq.ForEach(s2, func(x int) error {
 			seen = append(seen, x)
 			if len(seen) == p+1 {
-				return errStop
+				return stopErrs[p%len(stopErrs)]
 			}
 			return nil
 		})
 		want := ref
 		var wantErr error
 		if p < len(ref) {
-			want, wantErr = ref[:p+1], errStop
+			want, wantErr = ref[:p+1], stopErrs[p%len(stopErrs)]
 		}
 		c.r.Transitions += len(seen)
 		if fmt.Sprint(seen) != fmt.Sprint(want) || err != wantErr {
